@@ -5,7 +5,7 @@ PROP = dict(
     level_text='History invariant over a link-time ledger of every AEAD seal (key, nonce, AAD digest, plaintext digest) plus wire parsing of CBC explicit IVs and an entropy tap, over generated send/receive/alert/retry/retransmission histories for every AEAD and CBC suite x version.',
     level_note='Trusted: the ld --wrap ledger sees every call MatrixSSL makes to its AEAD primitives (psAesInitGCM/ReadyGCM/EncryptGCM, psChacha20Poly1305IetfInit/Encrypt). TLS 1.3 early data and KeyUpdate are not generated.',
     technique='property-based testing: stateful history generation with a nonce-ledger invariant (link-time interposition)',
-    rule='case = (version, suite, kind full/client-auth/resumed, 2-11 actions from {send via 2 APIs, 16k send, EncodeToUserBuf too-small-then-retry, peer send, garbage->alert, closure, DTLS timeout, DTLS drop, burst of 300 records}); non-trivial = >= 2 seals under one key (or >= 2 CBC records) and at least one of {alert, retry, closure, retransmission, drop, burst}; distinct by (version, suite, kind, action-kind set)',
+    rule='case = (version, suite, kind full/client-auth/resumed, 2-11 actions from {send via 2 APIs, 16k send, EncodeToUserBuf too-small-then-retry, peer send, garbage->alert, closure, DTLS timeout, DTLS drop, burst of 300 records, zero-length record via either API}; TLS 1.3 resumption with 0-RTT records, 0.5-RTT data, and early data written again after a HelloRetryRequest; a tag taken from a readied GCM context that encrypted nothing is a seal of the empty plaintext); non-trivial = >= 2 seals under one key (or >= 2 CBC records) and at least one of {alert, retry, closure, retransmission, drop, burst}; distinct by (version, suite, kind, action-kind set)',
     assumptions=[],
     targets=[dict(name='c17_nonce_ledger', src=['props/C17/nonce_ledger.cc', 'harness/wraps.c', 'harness/c17_ledger_wraps.c'], wraps=WRAPS, env={'VERIF_DIR': '/verif'},
                   quick=dict(cases=2500, secs=80), thorough=dict(cases=80000, secs=1200))],
